@@ -208,10 +208,22 @@ def normData (E : Ext) (t : util.EFIGUID) (d : List UInt8) : List UInt8 :=
 
 theorem CERT_SHA256_ne_X509 : CERT_SHA256_GUID ≠ CERT_X509_GUID := by decide
 
+theorem normData_eq (E : Ext) (t : util.EFIGUID) (d : List UInt8) :
+    (if (t == CERT_X509_GUID) = true then
+        (if (!(E.pemDecode d).1.isNil) = true then (E.pemDecode d).1.Bytes else d) else d) =
+      normData E t d := by
+  unfold normData
+  by_cases hx : t = CERT_X509_GUID
+  · by_cases hn : (E.pemDecode d).1.isNil = true <;> simp [hx, hn]
+  · simp [hx]
+
+/-- closed form of the translated `AppendBytes` (F27 repair: the data is PEM-normalised first, and
+    it is the normalised data that is looked up and stored) -/
 theorem signature.SignatureList.AppendBytes_eq (E : Ext) (sl : SignatureList) (o : util.EFIGUID)
     (d : List UInt8) :
     sl.AppendBytes E o d =
-      if (⟨o, d⟩ : SignatureData) ∈ sl.Signatures then (sl, some "ErrSigDataExists") else
+      if (⟨o, normData E sl.SignatureType d⟩ : SignatureData) ∈ sl.Signatures then
+        (sl, some "ErrSigDataExists") else
       if sl.SignatureType = CERT_SHA256_GUID ∧ (normData E sl.SignatureType d).length ≠ 32 then
         (sl, some "errors.New:not a sha256 hash") else
       if sl.Signatures ≠ [] ∧
@@ -221,27 +233,19 @@ theorem signature.SignatureList.AppendBytes_eq (E : Ext) (sl : SignatureList) (o
         sl.HeaderSize, UInt32.ofNat (normData E sl.SignatureType d).length + 16,
         sl.SignatureHeader, sl.Signatures ++ [⟨o, normData E sl.SignatureType d⟩]⟩, none) := by
   unfold SignatureList.AppendBytes
-  simp only [SignatureList.Exists_fst, lenI_ne_zero, util.SizeofEFIGUID]
-  by_cases hm : (⟨o, d⟩ : SignatureData) ∈ sl.Signatures
+  simp only [normData_eq, SignatureList.Exists_fst, lenI_ne_zero, util.SizeofEFIGUID]
+  generalize normData E sl.SignatureType d = d'
+  by_cases hm : (⟨o, d'⟩ : SignatureData) ∈ sl.Signatures
   · simp [hm]
   · simp only [hm, decide_false, Bool.false_eq_true, if_false]
-    by_cases hx : sl.SignatureType = CERT_X509_GUID
-    · simp only [normData, hx, beq_self_eq_true, if_true]
-      have hs' : ¬ CERT_X509_GUID = CERT_SHA256_GUID := fun h => CERT_SHA256_ne_X509 h.symm
-      simp only [hs', false_and, if_false]
-      by_cases hn : (E.pemDecode d).1.isNil = true
-      · simp [hn]
-      · simp [hn]
-    · have hb : (sl.SignatureType == CERT_X509_GUID) = false := by simpa using hx
-      simp only [normData, hx, hb, Bool.false_eq_true, if_false]
-      by_cases hs : sl.SignatureType = CERT_SHA256_GUID
-      · simp only [hs, beq_self_eq_true, if_true, true_and]
-        by_cases hl : d.length = 32
-        · simp [hl, lenI]
-        · have : ¬ ((d.length : Int) = 32) := by omega
-          simp [hl, lenI, this]
-      · have hb' : (sl.SignatureType == CERT_SHA256_GUID) = false := by simpa using hs
-        simp [hs, hb']
+    by_cases hs : sl.SignatureType = CERT_SHA256_GUID
+    · simp only [hs, beq_self_eq_true, if_true, true_and]
+      by_cases hl : d'.length = 32
+      · simp [hl, lenI]
+      · have : ¬ ((d'.length : Int) = 32) := by omega
+        simp [hl, lenI, this]
+    · have hb' : (sl.SignatureType == CERT_SHA256_GUID) = false := by simpa using hs
+      simp [hs, hb']
 
 theorem signature.SignatureList.AppendBytes_err (E : Ext) (sl : SignatureList) (o : util.EFIGUID)
     (d : List UInt8) (h : (sl.AppendBytes E o d).2.isSome) : (sl.AppendBytes E o d).1 = sl := by
